@@ -505,6 +505,28 @@ ROUNDS = [
      "LC", [("k64_dec_linear", XZO), ("k64_subcells_inv", FULL)], "k64_round_inv_is_spec_bool"),
 ]
 
+Z1 = ("poly pxor pzero pone", "bool xorb false true")
+def tk_kernels():
+    out = []
+    for w, bs, ksz, slotoff in (("128", 16, 16, 8), ("64", 8, 8, 4)):
+        f = "skinny%s-cipher.c" % w
+        binds = {"tk": ("tk", "Skinny%sCells_t" % w), "ks": ("ks", "Skinny%sKey_t *" % w)}
+        out.append((f, "skinny%s_xor_tk1" % w, 0, "xor_tk1_%s_body" % w, binds, {"index": (0, 32)}, None, {"ks": ksz}, "k%s_xor_tk1_body" % w, XZ))
+        out.append((f, "skinny%s_set_tk2" % w, 1, "set_tk2_%s_body" % w, binds, {"index": (0, 32)}, None, {"ks": ksz}, "k%s_tk2_body" % w, XZ))
+        out.append((f, "skinny%s_set_tk3" % w, 1, "set_tk3_%s_body" % w, binds, {"index": (0, 32)}, None, {"ks": ksz}, "k%s_tk3_body" % w, XZ))
+        for tw in (0, 1):
+            out.append((f, "skinny%s_set_tk1" % w, 1, "set_tk1_%s_body_t%d" % (w, tw), binds, {"index": (0, 32), "tweaked": (tw, 32)},
+                        {"rc": ("rc", 8, False)}, {"ks": ksz}, "k%s_tk1_body" % w,
+                        ("poly pxor pzero pone %s" % ("true" if tw else "false"), "bool xorb false true %s" % ("true" if tw else "false"))))
+    return out
+MANTIS_ROUNDS = [
+    # (function, loop index, name, tweak variable, [(spec, args)] for the three segments)
+    ("mantis_ecb_crypt", 0, "mantis_fwd", "tweak", [("km_h", Z), ("km_sub", FULL), ("km_fwd_linear", XZ)]),
+    ("mantis_ecb_crypt", 1, "mantis_bwd", "tweak", [("km_bwd_linear", XZ), ("km_sub", FULL), ("km_h_inv", Z)]),
+    ("mantis_ecb_crypt_tweaked", 0, "mantis_t_fwd", "tk", [("km_h", Z), ("km_sub", FULL), ("km_fwd_linear", XZ)]),
+    ("mantis_ecb_crypt_tweaked", 1, "mantis_t_bwd", "tk", [("km_bwd_linear", XZ), ("km_sub", FULL), ("km_h_inv", Z)]),
+]
+
 def is_call_stmt(s):
     m = re.match(r"SStore (\d+) (\d+) (\d+) \(ECall \d+ \(ELoad (\d+) (\d+) (\d+)\)\)$", s)
     return bool(m) and m.group(1, 2, 3) == m.group(4, 5, 6)
@@ -519,7 +541,7 @@ def main():
     out = ["(* GENERATED by translator/c2ir.py from %s/src (configuration %s: %s) — kernels of the current source as IR programs," % (repo, cfgname, " ".join(flags) or "default"),
            "   and the obligations that each equals its specification step for ALL inputs (reflective check + soundness theorem). *)",
            "From Coq Require Import List String Bool NArith Arith.",
-           "From Skinny Require Import Bits SpecSkinny SpecMantis IR Anf IRCheck KernelSpecs KernelHom.",
+           "From Skinny Require Import Bits SpecSkinny SpecMantis IR Anf IRCheck KernelSpecs KernelHom KernelSpecs2 KernelHom2.",
            "Import ListNotations.", "Open Scope string_scope.", ""]
     names = []
     def obligations(name, g, spec, args):
@@ -529,7 +551,8 @@ def main():
                 "Proof. vm_compute. reflexivity. Qed.",
                 "Theorem %s_correct : forall m : mem bool, shaped %s m ->" % (name, sizes),
                 "  fst (execB (callf_spec bool xorb andb false true) %s (m, [])) = %s %s m." % (name, spec, args[1]),
-                "Proof. exact (check_kernel_sound _ _ _ _ _ _ callf_spec_hom (%s_hom _) %s_check). Qed." % (spec, name), ""]
+                "Proof. exact (check_kernel_sound _ _ _ _ _ _ callf_spec_hom (%s_hom %s) %s_check). Qed."
+                % (spec, "_ _" if spec in ("k128_tk1_body", "k64_tk1_body") else "_", name), ""]
     for cfile, fn, spec, args in PURE:
         g = kernel_pure(tu(cfile), fn, {})
         out.append(emit(g, fn)); out += obligations(fn, g, spec, args); names.append(fn)
@@ -563,6 +586,45 @@ def main():
                 "  intros m Hm. rewrite %s_split." % name,
                 "  exact (check_two_segments _ _ _ _ _ _ _ _ _ callf_spec_hom (%s_hom _) (%s_hom _) %s_seg0_check %s_seg1_check %s_closed %s_bounds m Hm)."
                 % (s0[0], s1[0], name, name, name, name),
+                "Qed.", ""]
+        names.append(name)
+    # ---- key-schedule loop bodies
+    for cfile, fn, nth, name, binds, consts, carried, sizes_o, spec, args in tk_kernels():
+        g = kernel_loop(tu(cfile), fn, nth, binds, {}, consts, carried, sizes_o)
+        out.append(emit(g, name)); out += obligations(name, g, spec, args); names.append(name)
+    # ---- MANTIS forward / backward round bodies: three segments each
+    for fn, nth, name, twv, specs in MANTIS_ROUNDS:
+        t = tu("mantis-cipher.c")
+        rtype = None
+        for n_ in (t.funcs[fn]["inner"][-1].get("inner") or []):
+            if n_.get("kind") == "DeclStmt":
+                for d in n_["inner"]:
+                    if d.get("name") == "r": rtype = strip_q(d["type"]["qualType"])
+        binds = {twv: ("tweak", "MantisCells_t"), "state": ("state", "MantisCells_t"), "r": ("rc", rtype), "k1": ("k1", "MantisCells_t")}
+        g = kernel_loop(t, fn, nth, binds, OPAQUE, None, None, {"r": 8})
+        runs = []
+        for st in g.stmts:
+            c = is_call_stmt(st)
+            if runs and runs[-1][0] == c: runs[-1][1].append(st)
+            else: runs.append((c, [st]))
+        if [c for c, _ in runs] != [False, True, False]:
+            raise Unsupported("%s loop %d: the body is not [linear; S-box layer; linear]" % (fn, nth))
+        out.append(emit(g, name))
+        sizes = "%s_sizes" % name
+        for i, (c, seg) in enumerate(runs):
+            out.append("Definition %s_seg%d : list stmt := [\n  %s\n]." % (name, i, ";\n  ".join(seg)))
+        out.append("Definition %s_segs : list segment := [%s]." % (name, "; ".join(
+            "mkSeg %s_seg%d (%s %s) (%s %s)" % (name, i, sp, a[0], sp, a[1]) for i, (sp, a) in enumerate(specs))))
+        out += ["Theorem %s_check : check_segments_b (callf_spec poly pxor pand pzero pone) %s %s_segs = true." % (name, sizes, name),
+                "Proof. vm_compute. reflexivity. Qed.",
+                "Theorem %s_split : %s = segs_prog %s_segs. Proof. reflexivity. Qed." % (name, name, name),
+                "Theorem %s_wf : wf_prog %s %s = true. Proof. vm_compute. reflexivity. Qed." % (name, sizes, name),
+                "Theorem %s_correct : forall m : mem bool, shaped %s m ->" % (name, sizes),
+                "  fst (execB (callf_spec bool xorb andb false true) %s (m, [])) = segs_specB %s_segs m." % (name, name),
+                "Proof.",
+                "  intros m Hm. rewrite %s_split." % name,
+                "  apply (check_segments_b_sound (callf_spec poly pxor pand pzero pone) (callf_spec bool xorb andb false true) %s %s_segs callf_spec_hom); [ | exact %s_check | exact Hm]." % (sizes, name, name),
+                "  " + "".join("constructor; [exact (%s_hom _) | " % sp for sp, _ in specs) + "constructor" + "]" * len(specs) + ".",
                 "Qed.", ""]
         names.append(name)
     out.append("Definition kernel_names : list string := [%s]." % "; ".join('"%s"' % n for n in names))
